@@ -260,6 +260,25 @@ theorem C14_open_fresh (s : State) (hs : Inv s) (p : OpenParams) (k : Kind) (ns 
     intro y hy; have := hs.below y hy; simp; omega
 
 
+/-- **Namespace removed during a session.** A pull on a session whose namespace no longer exists delivers
+    nothing: it is refused with CIM_ERR_INVALID_NAMESPACE and the server state is unchanged - the context stays, so
+    `CloseEnumeration` can still end the session (`C14_no_leak_after_eos_or_close`). -/
+theorem C14_removed_namespace_refuses_pull (s : State) (k : Kind) (i : Nat) (max : Option Int) (c : Ctx)
+    (hm : badMax max = false) (hd : s.disabled = false) (hl : lookup s.ctxs i = some c) (hns : c.ns ∉ s.nss) :
+    stepPull s k (some i) max = (s, .err (.cimError CIM_ERR_INVALID_NAMESPACE)) := by
+  unfold stepPull
+  simp [hm, hd, hl, hns]
+
+/-- … in every history: after `removeNs ns`, no pull on a session of `ns` delivers objects until the namespace
+    is added again (the step right after the removal, for any state) -/
+theorem C14_remove_then_pull_refused (s : State) (k : Kind) (i : Nat) (max : Option Int) (c : Ctx) (ns : Nat)
+    (hm : badMax max = false) (hd : s.disabled = false) (hl : lookup s.ctxs i = some c) (hc : c.ns = ns) :
+    (step (step s (.removeNs ns)).1 (.pull k (some i) max)).2 = .err (.cimError CIM_ERR_INVALID_NAMESPACE) := by
+  have h := C14_removed_namespace_refuses_pull (step s (.removeNs ns)).1 k i max c hm
+    (by simpa [step] using hd) (by simpa [step] using hl) (by simp [step, hc])
+  simp only [step] at h ⊢
+  rw [h]
+
 /-! ### the optional session parameters (FilterQueryLanguage, FilterQuery, OperationTimeout, ContinueOnError) -/
 
 /-- **Parameters can only refuse.** Whatever optional parameters an Open carries, it either behaves
